@@ -543,8 +543,9 @@ func (P *Prog) discharge(obls []*Obligation, opt SolveOpts) {
 		script string
 	}
 	// query construction touches the global term table: do it sequentially
-	var launch func(i int, j job)
-	launch = func(i int, j job) {
+	var launchWith func(i int, j job, opt SolveOpts)
+	launch := func(i int, j job) { launchWith(i, j, opt) }
+	launchWith = func(i int, j job, opt SolveOpts) {
 		wg.Add(1)
 		sem <- struct{}{}
 		go func(i int, j job) {
@@ -623,6 +624,32 @@ func (P *Prog) discharge(obls []*Obligation, opt SolveOpts) {
 	if os.Getenv("VERIF_DEBUG") != "" {
 		fmt.Fprintf(os.Stderr, "timing: all queries built in %.1fs\n", time.Since(tBuild).Seconds())
 	}
-	_ = jobs
 	wg.Wait()
+	// Retry phase: an obligation that no solver decided within the limit is run once more with three times the
+	// limit and few concurrent processes, so that a loaded machine does not turn a slow proof into an alarm.
+	// A definitive answer (unsat/sat) is never revisited.
+	if os.Getenv("VERIF_NO_RETRY") == "" {
+		var again []int
+		for i, j := range jobs {
+			if j.o.Status == "unknown" && !strings.Contains(j.o.Output, "second solver") && !strings.Contains(j.o.Output, "=error") {
+				again = append(again, i)
+			}
+		}
+		if len(again) > 0 && len(again) <= 24 {
+			ropt := opt
+			ropt.Timeout = 3 * opt.Timeout
+			sem = make(chan struct{}, 4)
+			for _, i := range again {
+				j := jobs[i]
+				prev := j.o.Output
+				j.o.Status, j.o.Output = "", ""
+				launchWith(i, j, ropt)
+				_ = prev
+			}
+			wg.Wait()
+			for _, i := range again {
+				jobs[i].o.Retried = true
+			}
+		}
+	}
 }
